@@ -252,6 +252,9 @@ func NewEpochFromConfig(
 				return nil, fmt.Errorf("failed to open gsfa index: %w", err)
 			}
 			ep.onClose = append(ep.onClose, gsfaIndex.Close)
+			// the multi-epoch readers need to know which epoch each reader serves; set it once,
+			// here, rather than on every request (concurrent requests would race on the field).
+			gsfaIndex.SetEpoch(ep.Epoch())
 			ep.gsfaReader = gsfaIndex
 
 			if gsfaIndex.Version() >= 2 {
